@@ -67,10 +67,29 @@ class Prop:
 # global state isolation
 
 
+_PRISTINE = {}
+
+
 def reset_globals():
     import spydrnet as sdn
+    from spydrnet.global_state import global_callback
 
     sdn.namespace_manager.default = "DEFAULT"
+    # the callback registry as it was at import (only the namespace manager): a listener that an
+    # earlier case could not remove must not change what later cases see (the leak itself is
+    # reported by the case that caused it)
+    if not _PRISTINE:
+        for k, v in vars(global_callback).items():
+            if k.startswith("_container_") and isinstance(v, (list, set)):
+                _PRISTINE[k] = list(v)
+    for k, v in _PRISTINE.items():
+        cur = getattr(global_callback, k)
+        if list(cur) != v:
+            if isinstance(cur, list):
+                cur[:] = v
+            else:
+                cur.clear()
+                cur.update(v)
     # a case cut short by the watchdog can leave the manager's re-entrancy flag set (it is raised and
     # lowered without try/finally in apply_namespace); a leak *within* a case is still seen by that case
     if getattr(sdn.namespace_manager, "ignore_ns_change", False):
